@@ -193,9 +193,9 @@ class ConnSettings:
       starttls        set_starttls(bool)                  the public getter starttls()
       verify-off      set_no_tls_verify(bool)             what the default connector / configuration of the handshake helper does
                                                           (certificate verification switched off or not)
-      connector       set_connector(c) / set_config(c)    the field that receives Some(c)   (an opaque value: by data flow)
-      std-stream      set_std_stream(s)                   the field that receives Some(s)
-      conn-timeout    set_conn_timeout(d)                 the field that receives Some(d)
+      connector       set_connector(c) / set_config(c)    the payload of the one field that receives c  (an opaque value: by data flow;
+      std-stream      set_std_stream(s)                   ... s                                         taken out by create_tls_stream /
+      conn-timeout    set_conn_timeout(d)                 ... d                                         new_tcp, new_unix / from_url_with_settings)
 
     *State space.*  The fields of a closed scalar type (bool, the integer types, fieldless enums of the workspace) form the
     settings' finite state.  Its reachable part is enumerated exactly, by literal evaluation (no sampling): the initial states
@@ -216,7 +216,10 @@ class ConnSettings:
     field terms (a base `..Default::default()` is followed into the Default impl).
 
     A setter of the table that cannot be evaluated (the result is not a settings value the interpreter can take apart; an Option
-    role whose argument reaches no field, or several) raises AnchorMissing; any other setter that cannot be read is left to U6."""
+    role whose argument reaches no field, or several) raises AnchorMissing; any other setter that cannot be read is left to U6.
+    Whether an Option-valued setter stores its argument on *every* path - in particular when the field is already set - is not a
+    matter of the anchor: every transition carries its path condition, `opt_reading` says what the setting reads after it, and
+    C18 U6.request-recorded states the clause (see "the Option-valued settings" below)."""
     ST = 'ldap3::conn::LdapConnSettings'
     BOOL = {'verify-off': ('set_no_tls_verify',), 'starttls': ('set_starttls',)}
     OPT = {'connector': ('set_connector', 'set_config'), 'std-stream': ('set_std_stream',), 'conn-timeout': ('set_conn_timeout',)}
@@ -340,7 +343,9 @@ class ConnSettings:
             got = self.taken_apart(o.val, o) if o.kind in ('val', 'ret') else None
             if got is None:
                 raise AnchorMissing('%s does not return a settings value that can be taken apart field by field (%s)' % (p, absx.fmt(o.val)[:60]))
-            paths.append(got)
+            # (the path's condition: what it found in the fields outside the scalar state - `self.x.get_or_insert(v)` stores v on
+            # the path that found x unset and keeps x on the path that found it set)
+            paths.append((got, tuple(o.st.pc)))
         if not paths:
             raise AnchorMissing('%s never returns' % p)
         self._cache[k] = (paths, args[0][1]['name'])
@@ -429,7 +434,7 @@ class ConnSettings:
                             raise
                         self.unreadable[p] = str(e)
                         break
-                    for got in paths:
+                    for got, pc in paths:
                         for F in self.S:
                             if not self.closed(got[F]):
                                 raise self._Demote(F)
@@ -439,7 +444,7 @@ class ConnSettings:
                             req[role] = val
                         call = '%s(%s)' % (p.rsplit('::', 1)[-1], '..' if val is None else 'true' if val else 'false')
                         j = node(st, req, n['chain'] + (call,), n['origin'])
-                        self.trans.append({'node': i, 'setter': p, 'arg': val, 'argname': arg, 'fields': got, 'state': st, 'to': j, 'call': call})
+                        self.trans.append({'node': i, 'setter': p, 'arg': val, 'argname': arg, 'fields': got, 'state': st, 'to': j, 'call': call, 'pc': pc})
             i += 1
 
     def resolve_opaque_roles(self):
@@ -447,6 +452,7 @@ class ConnSettings:
         import absx
         ident = lambda F: ('field', self.SELF, F)
         opaque = [F for F in self.fields if F not in self.S]
+        self.find_opaque_cases(opaque)
         for p in self.setter_paths:
             if p in self.unreadable:
                 self.effects[p] = {'unreadable': self.unreadable[p]}
@@ -456,10 +462,11 @@ class ConnSettings:
             A = ('param', ts[0]['argname'])
             own = sorted({F for t in ts for F in opaque if absx.leaves(t['fields'][F], lambda x: x == A)}) if not self.is_bool[p] else []
             if role in self.OPT:
-                if len(own) != 1 or any(not absx.leaves(t['fields'][own[0]], lambda x: x == A) for t in ts):
+                # the field of an Option-valued setting is the one field that receives the setter's argument (on some path, in some
+                # state): whether it receives it on *every* path and in every state is a clause of its own (C18 U6.request-recorded),
+                # not a matter of the anchor
+                if len(own) != 1:
                     raise AnchorMissing('%s does not return `self` with exactly one field set from its argument (%s)' % (p, own))
-                if any(t['fields'][own[0]] != ('ctor', 'Some', (A,)) for t in ts):
-                    raise AnchorMissing('%s does not store Some(<its argument>)' % p)
                 if role in self.field and self.field[role] != own[0]:
                     # both TLS back ends compiled in at once is not a supported configuration of the crate
                     raise AnchorMissing('two caller-supplied connector fields' if role == 'connector' else '%s: the field written depends on the argument' % p)
@@ -468,9 +475,73 @@ class ConnSettings:
             resets = {}
             for t in ts:
                 for F in opaque:
-                    if F not in own and t['fields'][F] != ident(F):
+                    if F not in own and t['fields'][F] != ident(F) and self.feasible(t):
                         resets.setdefault(F, t['fields'][F])
             self.effects[p] = {'own': own[0] if len(own) == 1 else None, 'owns': own, 'resets': resets, 'arg': ts[0]['argname']}
+
+    # ------------------------------------------------------------------ the Option-valued settings (opaque payloads)
+    # An Option-valued setting (connection timeout, caller's connector / configuration, pre-opened stream) has no literal to be
+    # evaluated on; its state is which *case* its field is in - unset (None) or set (Some of an earlier argument) - and a builder
+    # method is evaluated for both at once: the interpreter forks wherever the method's outcome depends on the case (Option's
+    # `&mut self` methods are modelled exactly, absx.option_writer), and the path condition of each transition says which case it
+    # stands for.  A case is *reachable* when a constructor builds it or a feasible transition leaves it behind (fixpoint below).
+    # What such a setting *reads* is what its consumer takes out of the field - the payload of `Some`, under the test that it is
+    # Some: from_url_with_settings for the timeout (C18 U4 compares the duration handed to tokio's timeout with that payload),
+    # new_tcp / new_unix for the pre-opened stream (C18 U3), create_tls_stream for the connector / configuration (C17
+    # W4.connector-choice) - each of those rules is anchored on `self.field[role]`, the field resolved here.
+    def find_opaque_cases(self, opaque):
+        def cases_of(t, F):
+            if t[0] == 'ctor' and t[1] in ('Some', 'None'):
+                return {t[1]}
+            return set() if t == ('field', self.SELF, F) else {'Some', 'None'}
+        self.opaque_cases = {F: set() for F in opaque}
+        for p in self.constructors():
+            sparams, vals = self.built(p)
+            if sparams:
+                continue
+            for got in vals:
+                for F in opaque:
+                    self.opaque_cases[F] |= cases_of(got[F], F) if got is not None else {'Some', 'None'}
+        changed = True
+        while changed:
+            changed = False
+            for t in self.trans:
+                if not self.feasible(t):
+                    continue
+                for F in opaque:
+                    new = cases_of(t['fields'][F], F) - self.opaque_cases[F]
+                    if new:
+                        self.opaque_cases[F] |= new; changed = True
+
+    def prior_case(self, t, F):
+        """what transition t found in the Option-valued field F of `self`: 'Some' / 'None', or None when its path did not ask"""
+        for a, truth in t['pc']:
+            if a == ('is', ('field', self.SELF, F), 'Some'):
+                return 'Some' if truth else 'None'
+        return None
+
+    def feasible(self, t):
+        """the case of every Option-valued field that the transition's path presupposes is a reachable one"""
+        cases = getattr(self, 'opaque_cases', None)
+        return cases is None or all(self.prior_case(t, F) in (None,) + tuple(cases[F]) for F in cases)
+
+    def opt_reading(self, role, t):
+        """What the Option-valued setting `role` reads after transition t of its setter - what its consumer will take out of the
+        field: ('arg',) the setter's argument; ('earlier',) the value an earlier call stored (the field is left as it was found, and
+        it was found set); ('unset',) nothing; ('as-before',) the field is left as it was found, in either case; ('other', term)."""
+        F = self.field[role]
+        v = t['fields'][F]
+        if v == ('ctor', 'Some', (('param', t['argname']),)):
+            return ('arg',)
+        if v == ('field', self.SELF, F):
+            return {'Some': ('earlier',), 'None': ('unset',), None: ('as-before',)}[self.prior_case(t, F)]
+        if v == ('ctor', 'None', ()):
+            return ('unset',)
+        return ('other', v)
+
+    OPT_READER = {'conn-timeout': 'the duration LdapConnAsync::from_url_with_settings bounds the establishment with',
+                  'std-stream': 'the pre-opened stream new_tcp / new_unix use instead of dialling',
+                  'connector': 'the connector / configuration create_tls_stream runs the handshake with'}
 
     def role_of_field(self, F):
         return next((r for r, x in self.field.items() if x == F), None)
